@@ -28,6 +28,7 @@ Definition as_caller (s : sexp) : option caller :=
   | SL [SN 4; _] => Some CDrain
   | SL [SN 5; _] => Some CClose
   | SL [SN 6; SN a] => Some (CStream (N.to_nat a))
+  | SL [SN 7; SN k] => Some (CRead1 (N.to_nat k))
   | _ => None
   end.
 
